@@ -173,10 +173,18 @@ def factorial_bound_schema(term, rec, ctor):
         e = M(("if", ("call", "ops::RangeInclusive::contains", ("rangei", ("lit", "?lo", "i64"), ("lit", "?hi", "i64")), "?n"),
                ("seq", ("let", "?m", ("lit", "1", "i64")), ("for", ("bind", "?i"), ("rangei", ("lit", "2", "usize"), ("cast", "i64", "usize", "?n")),
                                                              ("setop", "mul", "i64", ("var", "?m"), ("cast", "usize", "i64", ("var", "?i")))), "?res"), "?else"), s)
+        prod = False
+        if e is None:
+            # the same product over an i64 range (also what `(2..=n).product::<i64>()` abbreviates)
+            e = M(("if", ("call", "ops::RangeInclusive::contains", ("rangei", ("lit", "?lo", "i64"), ("lit", "?hi", "i64")), "?n"),
+                   ("seq", ("let", "?m", ("lit", "1", "i64")), ("for", ("bind", "?i"), ("rangei", ("lit", "2", "i64"), "?n"), ("setop", "mul", "i64", ("var", "?m"), ("var", "?i"))), "?res"), "?else"), s)
+            prod = e is not None
         if e is not None:
             lo, hi = int(e["?lo"]), int(e["?hi"])
             if lo >= 0 and hi >= lo and math.factorial(hi) < 2 ** 63:
                 just[("assert", "Overflow(Mul)")] += 1
+                if prod:
+                    just[("call", "Iterator::product")] += 1
                 rec.append({"schema": "BOUNDED-PRODUCT", "ctor": ctor, "argument": "guard %d..=%d on n, accumulator seeded 1, factors 2..=n: maximum %d! = %d < 2^63" % (lo, hi, hi, math.factorial(hi))})
     return just
 
